@@ -769,8 +769,67 @@ func c16(nrand, nextRandom, ndocs int) {
 	oracleLines(ndocs / 40)
 }
 
+func parseFrame(s string) can.Frame {
+	p := strings.Split(s, ":")
+	if len(p) != 5 {
+		fmt.Fprintln(os.Stderr, "bad frame", s)
+		os.Exit(2)
+	}
+	id, _ := strconv.ParseUint(p[0], 16, 32)
+	n, _ := strconv.ParseUint(p[1], 16, 8)
+	d, _ := hex.DecodeString(p[2])
+	var f can.Frame
+	f.ID, f.Length = uint32(id), uint8(n)
+	copy(f.Data[:], d)
+	f.IsRemote, f.IsExtended = p[3] == "1", p[4] == "1"
+	return f
+}
+
+func unhx(s string) []byte {
+	if s == "-" {
+		return nil
+	}
+	b, _ := hex.DecodeString(s)
+	return b
+}
+
+// replay of one observation: `one <kind> <input fields of the observation line>`
+func one(args []string) {
+	if len(args) < 2 {
+		os.Exit(2)
+	}
+	switch args[0] {
+	case "S":
+		emitS(parseFrame(args[1]), true)
+	case "J":
+		emitJ(parseFrame(args[1]))
+	case "M":
+		emitM(parseFrame(args[1]))
+	case "U", "D":
+		if len(args) >= 3 {
+			sentinels = []can.Frame{parseFrame(args[2])}
+		}
+		if args[0] == "U" {
+			emitU(string(unhx(args[1])), true)
+		} else {
+			emitD(unhx(args[1]), true)
+		}
+	case "E":
+		if len(args) >= 3 {
+			emitE(unhx(args[2]))
+		}
+	default:
+		os.Exit(2)
+	}
+}
+
 func main() {
 	defer out.Flush()
+	if len(os.Args) >= 3 && os.Args[1] == "one" {
+		rng = rand.New(rand.NewSource(1))
+		one(os.Args[2:])
+		return
+	}
 	if len(os.Args) < 3 {
 		fmt.Fprintln(os.Stderr, "usage: verif_frametext <c15|c16> <seed> [nrand nextRandom n]")
 		os.Exit(2)
